@@ -44,11 +44,24 @@ Definition upd_possible (sup : list bool) (u : updc) : bool :=
   | UOverflow => false
   end.
 
+(* the shape of a PSSM with respect to the integer tables it was built from: -inf exactly
+   where [cell_ninf] says so, finite elsewhere (an executable test, evaluated by the driver
+   on every replayed PSSM; premise of C16F.weights_support_partial) *)
+Definition cell_shape (K : nat) (bg : list N) (row : list N) (frow : list F32.t) (k : nat) : bool :=
+  if cell_ninf K bg row k then F32.is_neg_inf (nth k frow F32.zero)
+  else F32.is_finite (nth k frow F32.zero).
+
+Definition pssm_shape (K : nat) (bg : list N) (motif : matrix) (m : list (list F32.t)) : bool :=
+  (length m =? length motif)%nat &&
+  forallb (fun b : bool => b)
+          (map2 (fun row frow => forallb (cell_shape K bg row frow) (seq 0 K)) motif m).
+
 (* ---------- binary32 / binary64 replay ---------- *)
 
 Definition f32_pseudo : F32.t := F32.of_bits 1036831949.          (* 0.1f32 = 0x3DCCCCCD *)
 Definition f64_one : F64.t := F64.of_Z 1.                          (* temperature *)
-Definition f64_max_rand : F64.t := F64.of_bits 4607182418800017407. (* 1 - 2^-52 = 0x3FEFFFFFFFFFFFFF *)
+Definition f64_max_rand : F64.t := F64.of_bits 4607182418800017406. (* 1 - 2^-52 = 0x3FEFFFFFFFFFFFFE:
+   (u64::MAX >> 12).into_float_with_exponent(0) - 1.0 in rand 0.8.8 (until round 3 the model had 0x3FEF..FF = 1 - 2^-53) *)
 
 Inductive wnew :=
 | WErr                       (* WeightedIndex::new returned Err: the start is kept *)
@@ -187,6 +200,9 @@ Definition u01 (word : Z) : F64.t :=
 (* 0 <= u01 word <= 1 - 2^-52 (true of every u64 word; an executable test) *)
 Definition word_ok (word : Z) : bool :=
   F64.le F64.zero (u01 word) && F64.le (u01 word) f64_max_rand.
+
+(* what Uniform::new leaves as scale: a finite value >= 0 (an executable test) *)
+Definition scale_ok (scale : F64.t) : bool := F64.is_finite scale && F64.le F64.zero scale.
 
 Section NextG.
   Variable flog2 : F32.t -> F32.t.
